@@ -42,9 +42,33 @@ def corpus():
     return out
 
 
+def abort_mid_record(fl, rng):
+    """The connection is torn down while one side is in the middle of sending: that side's data stops inside a record (its later segments were never sent), then the
+    peer's closing alert follows.  -> True if the flow was changed"""
+    ev = fl.conn.events
+    if fl.kind != "tls" or not ev or ev[-1].kind not in ("alert", "eapp-alert"):
+        return False
+    d = "s" if ev[-1].dir == "c" else "c"
+    apps = [e for e in ev if e.dir == d and e.kind == "app"]
+    if not apps:
+        return False
+    bounds = {e.woff + len(e.wire) for e in ev if e.dir == d}
+    cand = [j for j, it in enumerate(fl.items) if it.seg is not None and it.seg.dir == d and it.seg.payload and not it.seg.dup and it.seg.woff + len(it.seg.payload) > apps[0].woff
+            and it.seg.woff + len(it.seg.payload) not in bounds]
+    if not cand:
+        return False
+    # prefer a segment that also holds the end of an earlier record (a complete record in front of the unfinished one)
+    good = [j for j in cand if any(fl.items[j].seg.woff < b < fl.items[j].seg.woff + len(fl.items[j].seg.payload) for b in bounds)]
+    j = rng.choice(good or cand)
+    fl.items = [it for i, it in enumerate(fl.items) if i <= j or not (it.seg is not None and it.seg.dir == d and it.seg.payload)]
+    fl.aborted = True
+    return True
+
+
 def build(tier, seed):
     thorough = tier == "thorough"
     cases = [{"id": f"gen-{i}", "kind": "gen", "i": i} for i in range(300 if thorough else 24)]
+    cases += [{"id": f"abort-{i}", "kind": "gen", "i": i, "abort": True} for i in range(300 if thorough else 16)]
     files = corpus()
     for i, f in enumerate(files if thorough else files[::3]):
         cases.append({"id": "real-" + os.path.basename(f), "kind": "real", "path": f})
@@ -57,7 +81,7 @@ def build(tier, seed):
 
     return dict(cases=cases, evalfn=evalfn, level="fault_enumeration", min_nontrivial=20, extra=extra,
                 rule="every cut position 0..N of each capture: generated scenes of 1-3 connections (every TLS version, CBC/RC4/AEAD, records spanning packets, coalesced "
-                     "flights, QUIC with coalescing, 0-RTT and key updates, mixed and interleaved, 20% with duplicated/reordered segments, 30% with repacketized retransmissions, 30% full-duplex) and the real OpenSSL captures of "
+                     "flights, QUIC with coalescing, 0-RTT and key updates, mixed and interleaved, 20% with duplicated/reordered segments, 30% with repacketized retransmissions, 30% full-duplex; 'abort' scenes: one side stops in the middle of a record and the peer's closing alert follows) and the real OpenSSL captures of "
                      "/repo/test. Class = (capture kind, flows, segmentation, cut count bucket); non-trivial = the full capture exported data and every prefix run was compared",
                 assumptions=["none beyond the output oracle; ground truth is only used for the full capture of generated scenes"])
 
@@ -72,6 +96,15 @@ def eval_case(case, rng, thorough):
             else:
                 flows.append(gen.random_tls_flow(rng, i, nmax=8, segkinds=("mss", "random", "whole", "records", "byte2", "tail1"), min_records=2, perturb=rng.random() < 0.2,
                                                  duplex=rng.random() < 0.3, repack=rng.random() < 0.3))
+        aborted = 0
+        if case.get("abort"):
+            # at least one TLS connection of the scene ends with a close while the other side is mid-record (its ground truth is then not used: only the prefix relation)
+            for tries in range(40):
+                f = gen.random_tls_flow(rng, len(flows), nmax=8, segkinds=("mss", "random", "byte2", "tail1"), min_records=3, duplex=rng.random() < 0.3)
+                if abort_mid_record(f, rng):
+                    flows.append(f)
+                    aborted = 1
+                    break
         items = scene.merge(flows, rng, rng.choice(["random", "bursty", "concat"]))
         scene.stamp(items, rng)
         keys = scene.keylog_text(flows, rng)
@@ -79,7 +112,7 @@ def eval_case(case, rng, thorough):
 
         def cap(c):
             return scene.capture(items[:c])
-        label = [f.label + ":" + f.segkind for f in flows]
+        label = [f.label + ":" + f.segkind + ("+aborted" if getattr(f, "aborted", False) else "") for f in flows]
     else:
         buf = open(case["path"], "rb").read()
         e, blocks = split_blocks(buf)
@@ -102,7 +135,7 @@ def eval_case(case, rng, thorough):
     msgs = []
     inexact = None
     for f in flows:
-        m = gen.check_flow_exact(an_full, f)
+        m = gen.check_flow_exact(an_full, f) if not getattr(f, "aborted", False) else None
         if m:
             inexact = m[0]      # C01/C02 business - but the prefix relation between the cuts is still checked below
     prev = {}
